@@ -64,6 +64,16 @@ def bounded_reduce(module):
             c = [rng.uniform(3, 8) for _ in range(3)] + [rng.uniform(75, 105) for _ in range(3)]
             if rng.random() < 0.3:
                 c[3:] = [90.0, 90.0, 90.0]
+            sym = rng.random()
+            if sym < 0.08:            # lattices with equal shortest vectors: tetragonal, cubic, hexagonal, rhombohedral
+                c = [c[0], c[0], c[2], 90.0, 90.0, 90.0]
+            elif sym < 0.14:
+                c = [c[0], c[0], c[0], 90.0, 90.0, 90.0]
+            elif sym < 0.20:
+                c = [c[0], c[0], c[2], 90.0, 90.0, 120.0]
+            elif sym < 0.25:
+                al = rng.uniform(62, 100)
+                c = [c[0], c[0], c[0], al, al, al]
             ca, cb, cg = [math.cos(math.radians(x)) for x in c[3:]]
             if 1 - ca * ca - cb * cb - cg * cg + 2 * ca * cb * cg > 0.3:
                 break
